@@ -1,4 +1,4 @@
-//! C01 — DltMessageIterator over a Cursor vs Dlt/Frame.v + Dlt/Iter.v
+//! C01 — DltMessageIterator over a Cursor / over the crate's LowMarkBufReader wiring (full and sliced reads) vs Dlt/Frame.v + Dlt/Iter.v
 //! Streams are built from abstract messages (ground truth) and garbage runs; the real iterator is drained;
 //! the oracle checks the property text against the ground truth whenever the stream is inside the
 //! property's domain (markers only at message starts); a second, malformed family only feeds the
@@ -178,6 +178,9 @@ pub struct Run {
     pub det_storage: bool,
     pub det_serial: bool,
     pub rest: usize,
+    /// false when the iterator was only reachable as Box<dyn Iterator> (no public counters): index, processed,
+    /// skipped and the latches are then not observed and the counter clauses are not evaluated
+    pub counters: bool,
 }
 
 pub fn run_impl(start: u32, data: &[u8]) -> Result<Run, String> {
@@ -192,7 +195,7 @@ pub fn run_impl(start: u32, data: &[u8]) -> Result<Run, String> {
         }
         let (index, processed, skipped, ds, dl) = (it.index, it.bytes_processed, it.bytes_skipped, it.detected_storage_header, it.detected_serial_header);
         drop(it);
-        Run { items, index, processed, skipped, det_storage: ds, det_serial: dl, rest: total - (cur.position() as usize).min(total) }
+        Run { items, index, processed, skipped, det_storage: ds, det_serial: dl, rest: total - (cur.position() as usize).min(total), counters: true }
     })
 }
 
@@ -230,6 +233,7 @@ pub fn o_item(i: &Item) -> O {
 }
 pub fn o_run(r: &Result<Run, String>) -> O {
     match r {
+        Ok(r) if !r.counters => O::T(vec![O::L(3), O::T(r.items.iter().map(o_item).collect()), O::n(r.rest as u64)]),
         Ok(r) => O::T(vec![
             O::L(0),
             O::T(r.items.iter().map(o_item).collect()),
@@ -315,7 +319,7 @@ pub fn oracle(inp: &Input, b: Option<&Built>, total: usize, r: &Result<Run, Stri
         Input::Raw { .. } => {
             // outside the property's hypotheses; only the unconditional clause
             if let Ok(r) = r {
-                if r.processed > total {
+                if r.counters && r.processed > total {
                     return (fail("processed_le_input", format!("{} > {}", r.processed, total)), false);
                 }
             }
@@ -330,7 +334,7 @@ pub fn oracle(inp: &Input, b: Option<&Built>, total: usize, r: &Result<Run, Stri
             let clean = pat_positions(&b.data, own) == b.starts && pat_positions(&b.data, other).is_empty();
             let in_domain = wf && clean && (*start as u64 + msgs.len() as u64) <= u32::MAX as u64;
             if let Ok(r) = r {
-                if r.processed > total {
+                if r.counters && r.processed > total {
                     return (fail("processed_le_input", format!("{} > {}", r.processed, total)), in_domain);
                 }
             }
@@ -354,12 +358,16 @@ pub fn oracle(inp: &Input, b: Option<&Built>, total: usize, r: &Result<Run, Stri
                 }
             }
             let min = if *framing == 0 { 20 } else { 8 };
-            let tail = total - r.processed;
-            if tail != r.rest {
+            // the bytes the reader did not hand out; with public counters: processed = what was consumed
+            let tail = r.rest;
+            if r.counters && total - r.processed != r.rest {
                 return (fail("processed_is_consumed", format!("processed {} but {} bytes left in the reader of {}", r.processed, r.rest, total)), true);
             }
             if tail >= min || tail > b.last_garbage {
                 return (fail("tail_shorter_than_minimal_message", format!("{} bytes unconsumed, last garbage run {}", tail, b.last_garbage)), true);
+            }
+            if !r.counters {
+                return (Verdict::Ok, true);
             }
             if r.skipped != b.garbage_total - tail {
                 return (fail("skipped_is_garbage", format!("skipped {} garbage {} tail {}", r.skipped, b.garbage_total, tail)), true);
@@ -497,7 +505,7 @@ pub fn run_wired(start: u32, data: &[u8], cap: usize, low: usize) -> (Result<Run
             items.push(item_of(&m));
         }
         Run { items, index: it.index, processed: it.bytes_processed, skipped: it.bytes_skipped, det_storage: it.detected_storage_header,
-            det_serial: it.detected_serial_header, rest: total - it.bytes_processed.min(total) }
+            det_serial: it.detected_serial_header, rest: total - it.bytes_processed.min(total), counters: true }
     }));
     let e = ends.borrow().clone();
     (r, e)
@@ -641,6 +649,417 @@ pub fn wired_family(sink: &mut Sink, rng: &mut Rng, tier: &str) {
                 emit(sink, f, look4, k, len_big, delta, rng.chance(1, 2), "wired_random");
             }
         }
+    }
+}
+
+// ------------------------------------------------------------------ the crate's wiring over a source with short reads
+/// read-size schedule of the inner source: cyclic run-length list (count, size); a size is clipped to [1, room]
+/// and to what is left; empty = every read is satisfied completely (regular file / Cursor)
+pub type Sched = Vec<(u64, u64)>;
+pub const FULL: u64 = 1 << 40;
+
+#[derive(Default)]
+pub struct ReadStats {
+    pub pos: usize,
+    pub reads: u64,
+    /// reads that returned fewer bytes than asked for although the source was not at its end afterwards
+    pub short: u64,
+    pub min_slice: usize,
+    pub max_slice: usize,
+}
+/// a `Read` that delivers fewer bytes than requested (pipe, socket, slicing adaptor); never an error, 0 only at the end
+pub struct SlicedSource {
+    pub data: Vec<u8>,
+    pub sched: Sched,
+    pub k: usize,
+    pub used: u64,
+    pub st: std::rc::Rc<std::cell::RefCell<ReadStats>>,
+}
+impl std::io::Read for SlicedSource {
+    fn read(&mut self, buf: &mut [u8]) -> std::io::Result<usize> {
+        let mut st = self.st.borrow_mut();
+        let left = self.data.len() - st.pos;
+        if buf.is_empty() || left == 0 {
+            return Ok(0);
+        }
+        let want = if self.sched.is_empty() {
+            buf.len() as u64
+        } else {
+            while self.used >= self.sched[self.k].0 {
+                self.k = (self.k + 1) % self.sched.len();
+                self.used = 0;
+            }
+            self.used += 1;
+            self.sched[self.k].1
+        };
+        let n = (want.max(1).min(buf.len() as u64) as usize).min(left);
+        buf[..n].copy_from_slice(&self.data[st.pos..st.pos + n]);
+        st.pos += n;
+        st.reads += 1;
+        if n < buf.len() && st.pos < self.data.len() {
+            st.short += 1;
+            st.min_slice = if st.min_slice == 0 { n } else { st.min_slice.min(n) };
+        }
+        st.max_slice = st.max_slice.max(n);
+        Ok(n)
+    }
+}
+
+pub fn sched_of(v: &Value) -> Sched {
+    v.as_array().map(|a| a.iter().map(|p| (p[0].as_u64().unwrap(), p[1].as_u64().unwrap())).collect()).unwrap_or_default()
+}
+pub fn sched_from_sizes(sizes: &[u64], then_full: bool) -> Sched {
+    let mut s: Sched = vec![];
+    for &n in sizes {
+        match s.last_mut() {
+            Some(l) if l.1 == n => l.0 += 1,
+            _ => s.push((1, n)),
+        }
+    }
+    if then_full {
+        s.push((FULL, FULL));
+    }
+    s
+}
+
+/// how the iterator is built: 0 = DltMessageIterator::new, 1 = the same with a logger, 2 / 3 = the crate's
+/// constructor `get_dlt_message_iterator(ext, ..)` without / with a logger (boxed: items + reader only)
+pub fn run_sliced(start: u32, data: &[u8], cap: usize, low: usize, ctor: u8, ext: &str, sched: &Sched) -> (Result<Run, String>, ReadStats) {
+    let total = data.len();
+    let st = std::rc::Rc::new(std::cell::RefCell::new(ReadStats::default()));
+    let src = SlicedSource { data: data.to_vec(), sched: sched.clone(), k: 0, used: 0, st: st.clone() };
+    let st2 = st.clone();
+    let ext = ext.to_string();
+    let r = catch_loc(std::panic::AssertUnwindSafe(move || {
+        let log = slog::Logger::root(slog::Discard, slog::o!());
+        let mut rd = LowMarkBufReader::new(src, cap, low);
+        let mut items = vec![];
+        let (index, processed, skipped, ds, dl, counters);
+        if ctor < 2 {
+            let mut it = DltMessageIterator::new(start, &mut rd);
+            if ctor == 1 {
+                it.log = Some(&log);
+            }
+            for m in &mut it {
+                items.push(item_of(&m));
+            }
+            (index, processed, skipped, ds, dl, counters) = (it.index, it.bytes_processed, it.bytes_skipped, it.detected_storage_header, it.detected_serial_header, true);
+        } else {
+            let it = adlt::utils::get_dlt_message_iterator(&ext, start, &mut rd, adlt::utils::get_new_namespace(), None, None, if ctor == 3 { Some(&log) } else { None });
+            for m in it {
+                items.push(item_of(&m));
+            }
+            (index, processed, skipped, ds, dl, counters) = (0, 0, 0, false, false, false);
+        }
+        // what the reader has not handed out: not yet read from the source + still buffered
+        let rest = total - st2.borrow().pos + rd.buffer().len();
+        Run { items, index, processed, skipped, det_storage: ds, det_serial: dl, rest, counters }
+    }));
+    let stats = std::mem::take(&mut *st.borrow_mut());
+    (r, stats)
+}
+
+pub fn record_sliced(sink: &mut Sink, inp: Input, look4: bool, ctor: u8, ext: &str, sched: Sched, extra_tags: &[&str]) {
+    let cap = CALL_SITE_CAPACITY;
+    let low = call_site_low_mark(look4);
+    let (start, built, segs) = match &inp {
+        Input::Raw { start, segs } => (*start, None, segs.clone()),
+        Input::Stream { framing, start, parts } => {
+            let b = build(*framing, parts);
+            let s = b.segs.clone();
+            (*start, Some(b), s)
+        }
+    };
+    let data = match &built {
+        Some(b) => b.data.clone(),
+        None => flatten(&segs),
+    };
+    let (r, stats) = run_sliced(start, &data, cap, low, ctor, ext, &sched);
+    let (verdict, in_domain) = oracle(&inp, built.as_ref(), data.len(), &r);
+    let obs = o_run(&r);
+    let csched = clist(&sched.iter().map(|(c, n)| format!("({}, {})", c, n)).collect::<Vec<_>>());
+    let input_coq = format!("(WSliced {} {} {} {} {}, {}, {})", cap, low, cbool(look4), ctor, csched, start, coq_segs(&segs));
+    let mut tags: Vec<String> = extra_tags.iter().map(|s| s.to_string()).collect();
+    tags.push("sliced".into());
+    tags.push(if look4 { "low_mark_plus4".into() } else { "low_mark_plain".into() });
+    tags.push(format!("ctor{}", ctor));
+    if data.len() > 30000 {
+        tags.push("heavy".into());
+    }
+    let mut biggest = 0usize;
+    let mut nm = 0;
+    match &inp {
+        Input::Raw { .. } => tags.push("raw".into()),
+        Input::Stream { framing, parts, .. } => {
+            tags.push(if *framing == 0 { "storage".into() } else { "serial".into() });
+            tags.push(if in_domain { "in_domain".into() } else { "outside_domain".into() });
+            for p in parts {
+                if let Part::M(m) = p {
+                    nm += 1;
+                    biggest = biggest.max(m.len() + if *framing == 0 { 16 } else { 4 });
+                }
+            }
+            tags.push(format!("msgs{}", nm.min(9)));
+            if built.as_ref().unwrap().garbage_total > 0 {
+                tags.push("garbage".into());
+            }
+        }
+    }
+    if stats.short > 0 {
+        tags.push("short_reads".into());
+        if biggest > stats.min_slice {
+            tags.push("msg_gt_slice".into());
+        }
+        if biggest > stats.max_slice {
+            tags.push("msg_gt_every_slice".into());
+        }
+    }
+    tags.push(match biggest { 0..=99 => "big_lt100", 100..=999 => "big_lt1000", 1000..=9999 => "big_lt10000", 10000..=65000 => "big_lt65000", _ => "big_near_max" }.into());
+    if data.len() > cap {
+        tags.push("longer_than_buffer".into());
+    }
+    if let Ok(r) = &r {
+        tags.push(format!("yield{}", r.items.len().min(9)));
+    } else {
+        tags.push("panic".into());
+    }
+    let nontrivial = in_domain && nm >= 2 && stats.short > 0 && biggest > stats.min_slice;
+    let mut j = input_json(&inp);
+    j["sliced"] = json!({"look4": look4, "ctor": ctor, "ext": ext, "sched": sched.iter().map(|(c, n)| json!([c, n])).collect::<Vec<_>>()});
+    let id = sink.next_id();
+    sink.push(Case { id, key: input_coq.clone(), input_coq, input_json: j, obs, verdict, classes: vec![], tags, nontrivial });
+}
+
+/// positions where a message starts / ends (stream offsets) and the size of the largest message with its start
+pub fn boundaries(framing: u8, parts: &[Part]) -> (Vec<u64>, u64, u64) {
+    let hdr = if framing == 0 { 16 } else { 4 };
+    let (mut off, mut v, mut big, mut big_at) = (0u64, vec![], 0u64, 0u64);
+    for p in parts {
+        match p {
+            Part::G(g) => off += segs_len(g) as u64,
+            Part::M(m) => {
+                let t = (hdr + m.len()) as u64;
+                v.push(off);
+                if t > big {
+                    big = t;
+                    big_at = off;
+                }
+                off += t;
+                v.push(off);
+            }
+        }
+    }
+    v.sort();
+    v.dedup();
+    (v, big, big_at)
+}
+
+/// the schedule kinds of the sliced family; `kind` selects, `rng` fills in the sizes.  Returns (schedule, tag)
+pub fn make_sched(kind: u64, rng: &mut Rng, framing: u8, parts: &[Part], look4: bool) -> (Sched, &'static str) {
+    make_sched_d(kind, rng, framing, parts, look4, None)
+}
+/// `edge`: (d, following slice size) for the two edge kinds (5: buffer = low mark + d, 9: buffer = largest message + d)
+pub fn make_sched_d(kind: u64, rng: &mut Rng, framing: u8, parts: &[Part], look4: bool, edge: Option<(i64, u64)>) -> (Sched, &'static str) {
+    let (bnd, big, big_at) = boundaries(framing, parts);
+    let low = call_site_low_mark(look4) as u64;
+    let ends_to_sizes = |ends: Vec<u64>| -> Vec<u64> {
+        let mut sizes = vec![];
+        let mut at = 0u64;
+        for e in ends {
+            if e > at {
+                sizes.push(e - at);
+                at = e;
+            }
+        }
+        sizes
+    };
+    match kind {
+        0 => (vec![(1, 1)], "sched_all1"),
+        1 => (vec![(1, *rng.pick(&[2u64, 3, 4, 5, 7, 8, 13, 16, 19, 20, 21, 23, 64, 100]))], "sched_fixed_small"),
+        2 => (vec![(1, *rng.pick(&[1000u64, 4096, 65536]))], "sched_fixed_typical"),
+        3 => {
+            let max = *rng.pick(&[3u64, 10, 30, 300, 5000, 70000]);
+            let n = rng.range(2, 40);
+            (sched_from_sizes(&(0..n).map(|_| rng.range(1, max)).collect::<Vec<_>>(), false), "sched_random")
+        }
+        4 => {
+            // every read ends exactly on / one before / one after a message boundary
+            let fixed = rng.below(4); // 0: -1, 1: 0, 2: +1, 3: mixed
+            let ends: Vec<u64> = bnd.iter().map(|b| {
+                let d = if fixed == 3 { rng.below(3) } else { fixed };
+                (*b + d).saturating_sub(1)
+            }).collect();
+            (sched_from_sizes(&ends_to_sizes(ends), true), match fixed { 0 => "sched_boundary_minus1", 1 => "sched_boundary_exact", 2 => "sched_boundary_plus1", _ => "sched_boundary_mixed" })
+        }
+        5 => {
+            // a short read exactly when the buffer is just below / at / just above the low mark: when the largest
+            // message is at the front of the buffer, (low mark + d) bytes are buffered; then small slices
+            let (d, then) = edge.unwrap_or((rng.range(0, 8) as i64 - 5, *rng.pick(&[1u64, 2, 17, 1000]))); // d in -5..3
+            let first = (big_at as i64 + low as i64 + d).max(1) as u64;
+            (vec![(1, first), (FULL, then)], "sched_low_mark_edge")
+        }
+        6 => (vec![], "sched_full_reads"),
+        7 => {
+            // one large slice, then a few tiny ones, repeated
+            let a = *rng.pick(&[64u64, 1000, 4096, 65536, 100000]);
+            (vec![(1, a), (rng.range(1, 5), rng.range(1, 3))], "sched_alternating")
+        }
+        8 => {
+            // slices relative to the largest message: one byte less / exactly / one more / half of it
+            let t = big.max(2);
+            let n = match rng.below(5) { 0 => t - 1, 1 => t, 2 => t + 1, 3 => t / 2, _ => t / 2 + 1 };
+            (vec![(1, n.max(1))], "sched_msg_relative")
+        }
+        _ => {
+            // the buffer holds (largest message + d) bytes when that message is at its front, then 1-byte slices
+            let (d, then) = edge.unwrap_or((rng.range(0, 4) as i64 - 2, *rng.pick(&[1u64, 3, 1000])));
+            let first = (big_at as i64 + big as i64 + d).max(1) as u64;
+            (vec![(1, first), (FULL, then)], "sched_msg_edge")
+        }
+    }
+}
+
+/// an in-domain stream with structurally described messages of the given wire sizes
+pub fn sized_stream(rng: &mut Rng, framing: u8, sizes: &[usize], garbage: bool) -> Vec<Part> {
+    let hdr = if framing == 0 { 16usize } else { 4 };
+    let htyps = [0x20u8, 0x3f, 0x35, 0x21, 0x24, 0x31];
+    let mut parts = vec![];
+    for (i, t) in sizes.iter().enumerate() {
+        if garbage && rng.chance(1, 2) {
+            let n = rng.range(1, 30) as usize;
+            parts.push(Part::G(vec![(1, rbytes(rng, n, 3))]));
+        }
+        let mut h = *rng.pick(&htyps);
+        let mut m = plain(h, b"");
+        if hdr + m.hs() > *t {
+            h = 0x20;
+            m = plain(h, b"");
+        }
+        let t = (*t).max(hdr + m.hs());
+        parts.push(Part::M(sized_msg(framing, t, h, (i as u8).wrapping_mul(37).wrapping_add(5), 0x30 + (i as u8 % 64))));
+    }
+    if garbage && rng.chance(2, 3) {
+        let n = rng.range(1, 19) as usize;
+        parts.push(Part::G(vec![(1, rbytes(rng, n, 3))]));
+    }
+    parts
+}
+
+pub fn sliced_family(sink: &mut Sink, rng: &mut Rng, tier: &str) {
+    let (quick, search) = (tier == "quick", tier == "search");
+    let mult = if quick { 1 } else if search { 2 } else { 8 };
+    let pick_ctor = |rng: &mut Rng| -> (u8, &'static str) {
+        match rng.below(8) {
+            0 | 1 | 2 | 3 => (0, "dlt"),
+            4 | 5 => (1, "dlt"),
+            6 => (2, *rng.pick(&["dlt", "DLT", "", "bin"])),
+            _ => (3, *rng.pick(&["dlt", "DLT", "", "bin"])),
+        }
+    };
+    let stream_of = |inp: &Input| -> Option<(u8, Vec<Part>)> {
+        match inp { Input::Stream { framing, parts, .. } => Some((*framing, parts.clone())), _ => None }
+    };
+    // (a) small generated streams (messages of 8..150 bytes) under slices of a few bytes: every kind of schedule
+    let small_kinds = [0u64, 1, 1, 3, 3, 4, 4, 7, 8, 9, 6];
+    for k in 0..(150 * mult) {
+        let max_payload = *rng.pick(&[24usize, 60, 120]);
+        let inp = gen_stream(rng, 6, max_payload, 26);
+        let (f, parts) = stream_of(&inp).unwrap();
+        let look4 = rng.chance(1, 2);
+        let kind = small_kinds[k as usize % small_kinds.len()];
+        let (sched, tag) = make_sched(kind, rng, f, &parts, look4);
+        let (ctor, ext) = pick_ctor(rng);
+        record_sliced(sink, inp, look4, ctor, ext, sched, &["sliced_small", tag]);
+    }
+    // (b) malformed small streams (resync logic) -- shorter than the low mark, so the reader shows everything left
+    for k in 0..(40 * mult) {
+        let inp = gen_malformed(rng);
+        let kind = [0u64, 1, 3, 7][k as usize % 4];
+        let look4 = rng.chance(1, 2);
+        let (sched, tag) = make_sched(kind, rng, 0, &[], look4);
+        let (ctor, ext) = pick_ctor(rng);
+        record_sliced(sink, inp, look4, ctor, ext, sched, &["sliced_malformed", tag]);
+    }
+    // (c) medium messages (1.2 .. 40 kB, described structurally) larger than typical slices
+    let medium_kinds = [2u64, 2, 3, 4, 7, 8, 9, 1, 0];
+    for k in 0..(27 * mult) {
+        let f = (k % 2) as u8;
+        let n = rng.range(2, 5) as usize;
+        let mut sizes: Vec<usize> = (0..n).map(|_| match rng.below(4) { 0 => rng.range(20, 200), 1 => rng.range(1200, 5000), 2 => rng.range(5000, 20000), _ => rng.range(20000, 40000) } as usize).collect();
+        if !sizes.iter().any(|s| *s > 1200) {
+            sizes[0] = rng.range(1200, 40000) as usize;
+        }
+        let with_garbage = rng.chance(1, 2);
+        let parts = sized_stream(rng, f, &sizes, with_garbage);
+        let look4 = rng.chance(1, 2);
+        let kind = medium_kinds[k as usize % medium_kinds.len()];
+        let (sched, tag) = make_sched(kind, rng, f, &parts, look4);
+        let (ctor, ext) = pick_ctor(rng);
+        record_sliced(sink, Input::Stream { framing: f, start: rng.below(1000) as u32, parts }, look4, ctor, ext, sched, &["sliced_medium", tag]);
+    }
+    // (d) near-maximum messages behind a few small ones: typical slice sizes, 1-byte slices, slices around the
+    //     message's size and boundaries, and short reads when the buffer is just below / at / above the low mark
+    let near_kinds = [2u64, 5, 9, 4, 5, 8, 3, 5, 2, 9, 7, 0];
+    for k in 0..(if search { 12 } else { 24 * mult }) {
+        let f = (k % 2) as u8;
+        let hdr = if f == 0 { 16usize } else { 4 };
+        let len_big = 65535 - if k % 3 == 0 { 0 } else { rng.below(41) as usize };
+        let mut sizes: Vec<usize> = (0..rng.below(3)).map(|_| rng.range(8, 300) as usize).collect();
+        sizes.push(hdr + len_big);
+        for _ in 0..rng.range(1, 3) {
+            sizes.push(rng.range(8, 2500) as usize);
+        }
+        let parts = sized_stream(rng, f, &sizes, k % 4 >= 2);
+        let look4 = (k / 2) % 2 == 1;
+        let kind = near_kinds[(k as usize / 2) % near_kinds.len()];
+        let (sched, tag) = make_sched(kind, rng, f, &parts, look4);
+        let (ctor, ext) = pick_ctor(rng);
+        record_sliced(sink, Input::Stream { framing: f, start: 500 + k as u32, parts }, look4, ctor, ext, sched, &["sliced_near_max", tag]);
+    }
+    // (d') the maximum message at the front of a buffer that holds exactly (low mark + d) resp. (message + d) bytes
+    //      when the source delivers a short read: the reader must go on reading iff fewer than low-mark bytes are
+    //      buffered (d < 0); deterministic product over framing x low-mark expression x d
+    if !search {
+        let mut n = 0u32;
+        for f in 0..2u8 {
+            let hdr = if f == 0 { 16usize } else { 4 };
+            for look4 in [false, true] {
+                let low_ds: Vec<i64> = if quick { vec![-2, -1, 0, 1] } else { (-20..=20).collect() };
+                let msg_ds: Vec<i64> = if quick { vec![-1, 0, 1] } else { (-20..=20).collect() };
+                for (kind, ds) in [(5u64, low_ds), (9u64, msg_ds)] {
+                    for d in ds {
+                        n += 1;
+                        let mut sizes: Vec<usize> = if n % 2 == 0 { vec![] } else { vec![hdr + 9, 77] };
+                        sizes.push(hdr + 65535);
+                        sizes.push(hdr + 5);
+                        sizes.push(1500);
+                        let parts = sized_stream(rng, f, &sizes, n % 3 == 0);
+                        let then = [1u64, 1000, 4096][(n % 3) as usize];
+                        let (sched, tag) = make_sched_d(kind, rng, f, &parts, look4, Some((d, then)));
+                        let (ctor, ext) = pick_ctor(rng);
+                        record_sliced(sink, Input::Stream { framing: f, start: 3000 + n, parts }, look4, ctor, ext, sched, &["sliced_edge", tag]);
+                    }
+                }
+            }
+        }
+    }
+    // (e) streams longer than the buffer (compaction happens between sliced refills)
+    for k in 0..(if quick { 4 } else if search { 2 } else { 16 }) {
+        let f = (k % 2) as u8;
+        let hdr = if f == 0 { 16usize } else { 4 };
+        let mut sizes: Vec<usize> = vec![hdr + 9];
+        while sizes.iter().sum::<usize>() < CALL_SITE_CAPACITY + 70000 {
+            sizes.push(hdr + *rng.pick(&[60000usize, 65535, 30000, 65000]));
+            if rng.chance(1, 3) {
+                sizes.push(rng.range(8, 100) as usize);
+            }
+        }
+        let parts = sized_stream(rng, f, &sizes, k % 2 == 1);
+        let look4 = (k / 2) % 2 == 1;
+        let kind = [2u64, 7, 3, 8][k as usize % 4];
+        let (sched, tag) = make_sched(kind, rng, f, &parts, look4);
+        let (ctor, ext) = pick_ctor(rng);
+        record_sliced(sink, Input::Stream { framing: f, start: 7000 + k as u32, parts }, look4, ctor, ext, sched, &["sliced_long", tag]);
     }
 }
 
@@ -1059,7 +1478,11 @@ fn main() {
     if let Some(p) = &a.replay {
         let v = read_replay(p);
         let c = &v["case"];
-        if c.get("wiring").is_some() {
+        if c.get("sliced").is_some() {
+            let w = &c["sliced"];
+            record_sliced(&mut sink, input_from_json(c), w["look4"].as_bool().unwrap_or(false), w["ctor"].as_u64().unwrap_or(0) as u8,
+                w["ext"].as_str().unwrap_or("dlt"), sched_of(&w["sched"]), &["replay"]);
+        } else if c.get("wiring").is_some() {
             if let Input::Stream { framing, start, parts } = input_from_json(c) {
                 record_wired(&mut sink, framing, start, parts, c["wiring"]["look4"].as_bool().unwrap_or(false), &["replay"]);
             }
@@ -1087,8 +1510,9 @@ fn main() {
         flag_product(&mut sink, &mut rng, true);
     }
     wired_family(&mut sink, &mut rng, &a.tier);
-    // the buffered cases are expensive for the model (streams > 512 KiB): spread them evenly over the shards
-    let (wired, mut other): (Vec<Case>, Vec<Case>) = std::mem::take(&mut sink.cases).into_iter().partition(|c| c.tags.iter().any(|t| t == "wired"));
+    sliced_family(&mut sink, &mut rng, &a.tier);
+    // the buffered cases are expensive for the model (streams > 512 KiB, near-maximum messages): spread them evenly over the shards
+    let (wired, mut other): (Vec<Case>, Vec<Case>) = std::mem::take(&mut sink.cases).into_iter().partition(|c| c.tags.iter().any(|t| t == "wired" || t == "heavy"));
     let step = (other.len() / wired.len().max(1)).max(1);
     let mut merged = vec![];
     let mut w = wired.into_iter();
